@@ -18,6 +18,12 @@ package main
 //          presence is a send like any other
 //   ws     concurrent senders over the real WebsocketTransport to a loopback
 //          websocket sink (nhooyr.io/websocket, the module /repo uses)
+//   held   concurrent senders (and, for a client, the keep-alive loop) of stanzas around and far above
+//          the transport's packet size (32 KiB) over the real XMPPTransport on a net.Conn of the harness
+//          that serialises whole Write calls as a net.Conn does and nothing more, and that holds every
+//          caller back after its Write until another caller's Write went through (or a pause elapsed):
+//          whatever of a send is not ONE Write call on the connection (or covered by a lock that every
+//          writer takes) gets another writer's bytes in between, deterministically
 
 import (
 	"bufio"
@@ -81,6 +87,8 @@ type c08In struct {
 	Break     int   `json:"break,omitempty"`    // wsfault: 0 the TCP connection starts failing every write (reset not yet noticed)  2 the transport is closed (Disconnect) before that op
 	Hook      bool  `json:"hook,omitempty"`     // connect: a PostConnectHook (returning nil) is set
 	Reset     bool  `json:"reset,omitempty"`    // connect: the server resets the connection right after the bind result
+	Big       []int `json:"big,omitempty"`      // held: serialised size of the stanza sender s sends as its q-th is Big[(s+q) % len(Big)] (exactly for SendRaw, at least for Send)
+	KA        bool  `json:"ka,omitempty"`       // held: the library's keep-alive loop (interval 1 ms) runs on the same transport while the senders send
 	// filled by Run: the sender index of every element on the wire, in wire order
 	// (the schedule the run exhibited; handed to the model's LTS runner)
 	Sched []int `json:"sched,omitempty"`
@@ -94,7 +102,7 @@ func (c08) ID() string    { return "C08" }
 func (c08) RunFn() string { return "run_C08" }
 func (c08) Workers() int  { return 4 }
 func (c08) Rule() string {
-	return "seq: histories of 1-12 ops (Send of Message/Presence/IQ with random attributes and text incl. XML metacharacters, non-ASCII, control bytes, 1 B-20 kB; SMRequest/SMAnswer; SendRaw; SendIQ get/set/result/error) on a real Client (stream management on/off) or Component, connected or not, whose transport Write is readWriter.Write with readWriter = recording socket or the real streamLogger around socket+log, with error-after-n-bytes and short-count faults at random calls of socket and log; logger: Write sequences straight on the stream logger; mem: 2-16 goroutines x 100-500 tiny stanzas on the in-memory recording transport (client SM on, component; logger on/off); tcp: 8-16 goroutines x 50-200 stanzas with unique ids over the real XMPPTransport to a loopback TCP sink that re-parses the byte stream with encoding/xml (client SM on/off, component; traffic log on/off); ws: the same over the real WebsocketTransport to a loopback nhooyr.io/websocket sink (one text message per stanza). wsfault: 1-6 ops on a real Client over the real WebsocketTransport dialled through a TCP connection that fails every write from op k on (the first failing send below and above the library's 4 KiB write buffer): every send from k on must return an error, the earlier ones arrive whole; text pools of every mode contain %, %%, %s, %d, %20, %!. distinct = configuration + op-kind/size-class/fault sequence; non-trivial = at least 2 ops reached the transport (seq), 2 writes (logger), 2 senders (mem/tcp/ws)"
+	return "seq: histories of 1-12 ops (Send of Message/Presence/IQ with random attributes and text incl. XML metacharacters, non-ASCII, control bytes, 1 B-20 kB; SMRequest/SMAnswer; SendRaw; SendIQ get/set/result/error) on a real Client (stream management on/off) or Component, connected or not, whose transport Write is readWriter.Write with readWriter = recording socket or the real streamLogger around socket+log, with error-after-n-bytes and short-count faults at random calls of socket and log; logger: Write sequences straight on the stream logger; mem: 2-16 goroutines x 100-500 tiny stanzas on the in-memory recording transport (client SM on, component; logger on/off); tcp: 8-16 goroutines x 50-200 stanzas with unique ids over the real XMPPTransport to a loopback TCP sink that re-parses the byte stream with encoding/xml (client SM on/off, component; traffic log on/off); ws: the same over the real WebsocketTransport to a loopback nhooyr.io/websocket sink (one text message per stanza). wsfault: 1-6 ops on a real Client over the real WebsocketTransport dialled through a TCP connection that fails every write from op k on (the first failing send below and above the library's 4 KiB write buffer): every send from k on must return an error, the earlier ones arrive whole; held: 1-4 goroutines x 2-6 stanzas of 32767, 32768, 32769, 65536, 100000, 200000 bytes (SendRaw: exactly; Send of Message/Presence: a text of that size) and small ones as control, through a Component (traffic log on/off) and through a Client (stream management on/off, log on/off, with the library's keep-alive loop at 1 ms on the same transport, and without), over the real XMPPTransport on a harness net.Conn in front of the loopback TCP sink that serialises whole Write calls (what a net.Conn guarantees) and holds every caller back after its Write until another caller's Write has gone through (or 50 ms): a stanza that is not one Write call on the connection, or not under a lock all writers take, gets another sender's or the keep-alive's bytes in between in every run; the sink's byte stream must split into exactly the stanzas sent, each contiguous, white space only between them; text pools of every mode contain %, %%, %s, %d, %20, %!. distinct = configuration + op-kind/size-class/fault sequence; non-trivial = at least 2 ops reached the transport (seq), 2 writes (logger), 2 senders (mem/tcp/ws)"
 }
 
 // ---------------------------------------------------------------- content
@@ -1281,10 +1289,101 @@ func c08StressOp(in *c08In, s, q int) c08Op {
 	return o
 }
 
+// ---- mode held: a connection that gives every other ready writer its turn after each Write call
+
+// c08HeldConn is what a net.Conn promises and no more: Write calls are serialised whole (the fd write
+// lock of a TCP connection), nothing ties two Write calls of one caller together.  After its Write went
+// through, the caller is held back until some other caller's Write has gone through as well, or the
+// pause has elapsed, or nobody else can come (the other senders are done and no keep-alive runs).
+// A send that is one Write call - or whose Write calls are all made under a lock every writer of the
+// connection takes - is unaffected; anything else is interleaved in every run, not once in a while.
+type c08HeldConn struct {
+	net.Conn
+	mu     sync.Mutex
+	done   int // Write calls gone through
+	pause  time.Duration
+	active int32 // sender goroutines still running
+	ka     bool  // a keep-alive loop runs
+}
+
+func (c *c08HeldConn) count() int { c.mu.Lock(); defer c.mu.Unlock(); return c.done }
+
+func (c *c08HeldConn) Write(p []byte) (int, error) {
+	c.mu.Lock()
+	n, err := c.Conn.Write(p)
+	c.done++
+	mine := c.done
+	c.mu.Unlock()
+	deadline := time.Now().Add(c.pause)
+	for time.Now().Before(deadline) {
+		c.mu.Lock()
+		d, ka := c.done, c.ka
+		c.mu.Unlock()
+		if d > mine || (atomic.LoadInt32(&c.active) <= 1 && !ka) {
+			break
+		}
+		time.Sleep(50 * time.Microsecond)
+	}
+	return n, err
+}
+
+func c08HeldClass(n int) string {
+	switch {
+	case n < 32768:
+		return "below-the-packet-size"
+	case n == 32768:
+		return "the-packet-size"
+	case n < 65536:
+		return "above-the-packet-size"
+	case n == 65536:
+		return "twice-the-packet-size"
+	default:
+		return "several-packets"
+	}
+}
+
+// c08HeldOp: the stanza sender s sends as its q-th in mode held; SendRaw strings have exactly the
+// size asked for, Send's stanzas a text of that size (their serialisation is a little longer).
+func c08HeldOp(in *c08In, s, q int) c08Op {
+	id := fmt.Sprintf("s%d-%d", s, q)
+	n := 100
+	if len(in.Big) > 0 {
+		n = in.Big[(s+q)%len(in.Big)]
+	}
+	seed := in.Seed*1000003 + int64(s)*10007 + int64(q)
+	switch (s + 2*q + int(in.Seed)) % 4 {
+	case 0, 2:
+		head, tail := "<message id='"+id+"' type='chat'><body>100%", "%d</body></message>"
+		pad := n - len(head) - len(tail)
+		if pad < 0 {
+			pad = 0
+		}
+		var b bytes.Buffer
+		xml.EscapeText(&b, []byte(c08Text(seed, pad)))
+		txt := b.String()
+		if len(txt) > pad { // escaping lengthened it: cut between two characters / entities and fill up
+			cut := pad
+			for cut > 0 && txt[cut]&0xC0 == 0x80 {
+				cut--
+			}
+			if i := strings.LastIndexByte(txt[:cut], '&'); i >= 0 && !strings.Contains(txt[i:cut], ";") {
+				cut = i
+			}
+			txt = txt[:cut] + strings.Repeat("p", pad-cut)
+		}
+		return c08Op{K: "raw", ID: id, Raw: head + txt + tail}
+	case 1:
+		return c08Op{K: "msg", Typ: "chat", ID: id, Seed: seed, Len: n, To: "peer@localhost/r", From: "u@localhost"}
+	default:
+		return c08Op{K: "pres", ID: id, Seed: seed, Len: n, To: "peer@localhost/r", From: "u@localhost"}
+	}
+}
+
 func c08Anomaly(kind, msg string) Sx { return L(SBytes("anomaly"), SBytes(kind), SBytes(msg)) }
 
 func c08RunStress(in *c08In) Sx {
-	ws, mem := in.Mode == "ws", in.Mode == "mem"
+	ws, mem, held := in.Mode == "ws", in.Mode == "mem", in.Mode == "held"
+	var hc *c08HeldConn
 	var sink *c08Sink
 	var err error
 	var tr xmpp.Transport
@@ -1301,6 +1400,28 @@ func c08RunStress(in *c08In) Sx {
 			mt.rw = c08RW{memSock}
 		}
 		tr = mt
+	} else if held {
+		// the real XMPPTransport (Write, Ping; optionally the real streamLogger) on the harness's connection
+		// to the loopback TCP sink; the stream header is written here, straight on the socket
+		sink, err = c08TCPSink()
+		if err != nil {
+			return c08Anomaly("harness", "sink: "+err.Error())
+		}
+		defer sink.stop()
+		sock, err := net.Dial("tcp", sink.addr)
+		if err != nil {
+			return c08Anomaly("harness", "dial: "+err.Error())
+		}
+		defer sock.Close()
+		if _, err := sock.Write([]byte("<?xml version='1.0'?><stream:stream to='localhost' xmlns='jabber:client' xmlns:stream='http://etherx.jabber.org/streams' version='1.0'>")); err != nil {
+			return c08Anomaly("harness", "header: "+err.Error())
+		}
+		hc = &c08HeldConn{Conn: sock, pause: 50 * time.Millisecond, active: int32(in.Senders), ka: in.KA}
+		if in.Log {
+			tr = xmpp.VerifXMPPTransportLoggedOnConn(hc, &c08Log{}, 1)
+		} else {
+			tr = xmpp.VerifXMPPTransportOnConn(hc, 1)
+		}
 	} else {
 		if ws {
 			sink, err = c08WSSink()
@@ -1367,6 +1488,9 @@ func c08RunStress(in *c08In) Sx {
 	for s := 0; s < in.Senders; s++ {
 		for q := 0; q < in.PerSender; q++ {
 			o := c08StressOp(in, s, q)
+			if held {
+				o = c08HeldOp(in, s, q)
+			}
 			plan[s] = append(plan[s], o)
 			d := o.data()
 			sent[o.ID] = c08Sent{id: o.ID, op: o, data: d, sender: s, seq: q}
@@ -1392,6 +1516,9 @@ func c08RunStress(in *c08In) Sx {
 		wg.Add(1)
 		go func(s int) {
 			defer wg.Done()
+			if hc != nil {
+				defer atomic.AddInt32(&hc.active, -1)
+			}
 			defer func() {
 				if r := recover(); r != nil {
 					emu.Lock()
@@ -1418,8 +1545,30 @@ func c08RunStress(in *c08In) Sx {
 			}
 		}(s)
 	}
+	var kaQuit chan struct{}
+	kaDone := make(chan struct{})
+	if held && in.KA {
+		// the keep-alive loop of the library, as Connect/Resume start it, on the same transport
+		kaQuit = make(chan struct{})
+		go func() { defer close(kaDone); xmpp.VerifKeepalive(tr, time.Millisecond, kaQuit) }()
+	}
 	close(start)
 	wg.Wait()
+	if kaQuit != nil {
+		close(kaQuit)
+		atomic.StoreInt32(&hc.active, 0)
+		hc.mu.Lock()
+		hc.ka = false
+		hc.mu.Unlock()
+		select {
+		case <-kaDone:
+		case <-time.After(2 * time.Second):
+		}
+		hist(fmt.Sprintf("held:keep-alives-among-the-stanzas>0=%v", hc.count() > len(sent)))
+	}
+	if hc != nil && hc.count() > 0 {
+		hist("held:ran")
+	}
 	if len(errs) > 0 {
 		return c08Anomaly("send-error", fmt.Sprintf("%d sends failed on a healthy connection, first: %s", len(errs), errs[0]))
 	}
@@ -1681,7 +1830,7 @@ func (c08) Run(inp interface{}) Sx {
 		return c08RunSeq(in)
 	case "logger":
 		return c08RunLogger(in)
-	case "tcp", "ws", "mem":
+	case "tcp", "ws", "mem", "held":
 		return c08RunStress(in)
 	case "wsfault":
 		return c08RunWSFault(in)
@@ -1747,6 +1896,12 @@ func (c08) Key(inp interface{}) (string, bool) {
 		return fmt.Sprintf("connect h%v r%v s%d", in.Hook, in.Reset, in.Seed), true
 	}
 	switch in.Mode {
+	case "held":
+		for _, n := range in.Big {
+			hist("held:size=" + c08HeldClass(n))
+		}
+		hist(fmt.Sprintf("held:component=%v sm=%v log=%v keepalive=%v senders=%d", in.Component, in.SM, in.Log, in.KA, in.Senders))
+		return fmt.Sprintf("held c%v sm%v log%v ka%v %dx%d big%v seed%d", in.Component, in.SM, in.Log, in.KA, in.Senders, in.PerSender, in.Big, in.Seed), in.Senders >= 2 || in.KA
 	case "tcp", "ws", "mem":
 		k := fmt.Sprintf("%s c%v sm%v log%v %dx%d max%d seed%d", in.Mode, in.Component, in.SM, in.Log, in.Senders, in.PerSender, in.MaxLen, in.Seed)
 		hist(fmt.Sprintf("stress:%s component=%v sm=%v log=%v", in.Mode, in.Component, in.SM, in.Log))
@@ -2076,6 +2231,29 @@ func (c08) Gen(r *rand.Rand, tier string) []interface{} {
 			if !c.comp { // components have no websocket transport
 				out = append(out, &c08In{Mode: "ws", SM: c.sm, Log: c.log, Senders: senders, PerSender: per, MaxLen: 20000, Seed: r.Int63n(1 << 30)})
 			}
+		}
+		// mode held: stanzas below, at and above the transport's packet size from 2-4 senders over a connection
+		// that lets every other ready writer in after each Write call
+		if k == 0 || tier == "thorough" {
+			sizes := []int{32767, 32768, 32769, 65536, 100000, 200000}
+			for i, n := range sizes {
+				// all stanzas of that size / mixed with small ones; component, client with the keep-alive loop
+				out = append(out,
+					&c08In{Mode: "held", Component: true, Log: i%3 == 2, Senders: 2 + i%3, PerSender: 2, Big: []int{n}, Seed: r.Int63n(1 << 30)},
+					&c08In{Mode: "held", Component: true, Log: i%3 == 0, Senders: 2 + (i+1)%3, PerSender: 3, Big: []int{n, 150, n + 1}, Seed: r.Int63n(1 << 30)},
+					&c08In{Mode: "held", SM: i%2 == 0, Log: i%3 == 1, KA: true, Senders: 2 + (i+2)%3, PerSender: 2, Big: []int{n, 3000}, Seed: r.Int63n(1 << 30)})
+			}
+			out = append(out,
+				// controls: small stanzas only; one sender; a client without the keep-alive loop (its senders are serialised by its lock)
+				&c08In{Mode: "held", Component: true, Senders: 4, PerSender: 6, Big: []int{10, 200, 3000, 20000}, Seed: r.Int63n(1 << 30)},
+				&c08In{Mode: "held", KA: true, SM: true, Senders: 3, PerSender: 6, Big: []int{10, 200, 3000, 20000}, Seed: r.Int63n(1 << 30)},
+				&c08In{Mode: "held", Component: true, Senders: 1, PerSender: 4, Big: sizes, Seed: r.Int63n(1 << 30)},
+				&c08In{Mode: "held", KA: true, Senders: 1, PerSender: 6, Big: sizes, Seed: r.Int63n(1 << 30)},
+				&c08In{Mode: "held", SM: true, Senders: 3, PerSender: 2, Big: []int{200000, 32769}, Seed: r.Int63n(1 << 30)},
+				&c08In{Mode: "held", Log: true, Senders: 2, PerSender: 2, Big: []int{65536, 100}, Seed: r.Int63n(1 << 30)},
+				// everything at once
+				&c08In{Mode: "held", Component: true, Log: true, Senders: 4, PerSender: 6, Big: sizes, Seed: r.Int63n(1 << 30)},
+				&c08In{Mode: "held", KA: true, SM: true, Senders: 4, PerSender: 3, Big: sizes, Seed: r.Int63n(1 << 30)})
 		}
 		// a single sender (the wire must be its list) and many small senders
 		out = append(out, &c08In{Mode: "tcp", SM: true, Log: true, Senders: 1, PerSender: 40, MaxLen: 20000, Seed: r.Int63n(1 << 30)})
